@@ -211,6 +211,51 @@ def diff_detached(got, want):
     return None
 
 
+def observe_node_copy(h, d):
+    """every attribute a node handle `h` and its detached copy `d` report: their key sets and, key by key, the value (a tree may carry
+    per-node columns beyond the seven SWC ones: the eswc columns, or anything given to Tree(...))"""
+    def read(o, k):
+        try:
+            return float(np.asarray(o[k]).reshape(-1)[0])
+        except CaseTimeout:
+            raise
+        except Exception as e:  # noqa: BLE001 - judged by the oracle
+            return f"{type(e).__name__}: {str(e)[:60]}"
+
+    def keys(o):
+        try:
+            return sorted(str(k) for k in o.keys())
+        except CaseTimeout:
+            raise
+        except Exception as e:  # noqa: BLE001
+            return f"{type(e).__name__}: {str(e)[:60]}"
+    hk, dk = keys(h), keys(d)
+    return {"hkeys": hk, "dkeys": dk, "hvals": {k: read(h, k) for k in hk} if isinstance(hk, list) else None,
+            "dvals": {k: read(d, k) for k in hk} if isinstance(hk, list) else None}
+
+
+def judge_node_copy(t, i, o):
+    """a handle reports exactly the attributes of its row (all columns of the tree); its detached copy has equal content (all of them; a
+    detached node is a one-node table of its own, so its id / pid are not compared)"""
+    cols = tree_columns(t)
+    allk = sorted([actual(t, c) for c in COLS] + list(t.get("extra") or {}))
+    hk, dk, hv, dv = (o.get(f) for f in ("hkeys", "dkeys", "hvals", "dvals"))
+    if hk != allk:
+        return ("node-read", f"its keys() are {hk}, the tree has the columns {allk}")
+    if not isinstance(hv, dict) or not isinstance(dv, dict):
+        return ("node-read", f"its attributes cannot be read: {hv} / {dv}")
+    for k in (t.get("extra") or {}):
+        if hv.get(k) != float(cols[k][i]):
+            return ("node-read", f"its column {k!r} reads {hv.get(k)}, row {i} holds {cols[k][i]}")
+    if dk != hk:
+        return ("copy-content", f"its detached copy has the columns {dk}, the handle has {hk}")
+    skip = {actual(t, "id"), actual(t, "pid")}
+    for k in hk:
+        if k not in skip and (isinstance(dv.get(k), str) or dv.get(k) != hv.get(k)):
+            return ("copy-content", f"column {k!r} of its detached copy reads {dv.get(k)}, the handle reads {hv.get(k)}")
+    return None
+
+
 def gen_history(rng, n, branches):
     """ops over object 0 (the tree); object / view ids are assigned in creation order"""
     ops = []
@@ -724,6 +769,12 @@ class Accessors(Suite):
             res["node"] = {"xyz": [float(q) for q in nd.xyz()], "xyzr": [float(q) for q in nd.xyzr()], "keys": sorted(str(q) for q in nd.keys()),
                            "detached": {c: float(np.asarray(getattr(d, c)).reshape(-1)[0]) for c in ("x", "y", "z", "r", "type")},
                            "dist0": float(nd.distance(t.node(0)))}
+            # detached copies of node handles obtained through the tree and through a window (first / last position of the path / branch)
+            hs = [("tree.node", int(idx[0]), nd), ("tree[i-n]", int(idx[-1]), t[int(idx[-1]) - len(t)])]
+            for name, V in (("path", Path), ("branch", Branch)):
+                for j in (0, -1):
+                    hs.append((f"{name}[{j}]", int(idx[j]), V(t, idx)[j]))
+            res["node_copies"] = [{"how": how, "row": row, **observe_node_copy(h, h.detach())} for how, row, h in hs]
             # detached copies of every kind of window: a path, a branch, a segment of the tree, a segment of a branch (if the tree has an edge)
             kinds = [("path", Path(t, idx), [int(i) for i in idx]), ("branch", Branch(t, idx), [int(i) for i in idx])]
             tsegs = t.get_segments()
@@ -785,6 +836,11 @@ class Accessors(Suite):
         if abs(nd["dist0"] - math.dist(t["xyz"][i0], t["xyz"][0])) > 1e-4:
             out.append(("node-read", f"distance of node {i0} to node 0: {nd['dist0']}"))
         cols0 = tree_columns(t)
+        for nc in res.get("node_copies") or []:
+            bad = judge_node_copy(t, nc["row"], nc)
+            if bad:
+                out.append((bad[0], f"the handle of row {nc['row']} obtained as {nc['how']} (window over {idx}) of a tree with column names "
+                                    f"{t.get('names') or 'default'} and extra columns {sorted(t.get('extra') or {})}: {bad[1]}")); break
         for dd in res.get("detached", []):
             _, want = expect_detached(cols0, dd["rows"])
             bad = diff_detached(dd["before"], want)
@@ -837,8 +893,8 @@ class Handles(Suite):
                 t = {"n": nn, "pids": pids, "types": [1] + [rng.choice([2, 3, 4]) for _ in range(nn - 1)],
                      "xyz": [[float(rng.randint(-30, 30)) for _ in range(3)] for _ in range(nn)], "r": [float(rng.randint(1, 9)) for _ in range(nn)]}
                 decorate(rng, t, k); k += 1
-                out.append({"class": shape + ("/names" if t["names"] else ""), "tree": t, "wcol": rng.choice(["x", "y", "z", "r", "type"]),
-                            "wbase": rng.randint(100, 200)})
+                out.append({"class": shape + ("/names" if t["names"] else "") + ("/extra" if t["extra"] else ""), "tree": t,
+                            "wcol": rng.choice(["x", "y", "z", "r", "type"]), "wbase": rng.randint(100, 200)})
         return out
 
     def run(self, case):
@@ -904,9 +960,11 @@ class Handles(Suite):
                 o["write"] = [int(column(t, c)[i]), int(getattr(t[i], c)), [int(v) for j, v in enumerate(column(t, c)) if j != i]]
                 # its detached copy: that row's content, untouched by a later write to the tree
                 d = h.detach()
+                nc = observe_node_copy(h, d)        # (every column, extra ones included, while handle and copy must still agree)
                 setattr(h, c, old)
                 o["detached"] = [int(getattr(d, cc)) for cc in COLS]
                 o["restored"] = int(column(t, c)[i])
+                o.update(nc)
                 rows.append(o)
             res["routes"][route] = rows
         return res
@@ -949,6 +1007,9 @@ class Handles(Suite):
                 if [o["detached"][j] for j in keep] != [wd[j] for j in keep]:
                     out.append(("copy-content", f"{who}: its detached copy, read after the tree was written again, holds {dict(zip(COLS, o['detached']))}, "
                                                 f"expected {dict(zip(COLS, wd))}")); break
+                bad = judge_node_copy(t, i, o)
+                if bad:
+                    out.append((bad[0], f"{who} of a tree with column names {t.get('names') or 'default'} and extra columns {sorted(t.get('extra') or {})}: {bad[1]}")); break
             if out:
                 break
         return out[:3]
